@@ -7,6 +7,8 @@ Each vehicle's role is symbolic:
    5 queueing with symbolic enqueue time, battery within the "full" tolerance but below 100 %
    6 queueing with symbolic enqueue time, battery drained to exactly 0 kWh (idling in the queue clamps at zero)
    7 queueing with symbolic enqueue time, vehicle of fleet f1 (the station is public)
+   8 (v1 only) queueing for the OTHER plug type (DCFC @ s0) with symbolic enqueue time: a second queue whose member's id
+     lies between the ids of the two LEVEL_2 candidates
 plus symbolic installed plugs, ghost chargers and ghost queue members (unmodelled vehicles).
 Vehicle ids are "v0", "v1", "v10" (lexicographic trap for the id tie-break).
 
@@ -39,10 +41,11 @@ N_ROLES = 8
 ROLESET = tuple(int(x) for x in os.environ.get("VF_ROLESET", "0,1,2,3,4,5,6,7").split(","))
 
 
-def _role(i):
-    for k in range(len(ROLESET)):
+def _role(i, extra=()):
+    rs = ROLESET + tuple(extra)
+    for k in range(len(rs)):
         if i == k:
-            return ROLESET[k]
+            return rs[k]
     return None
 
 
@@ -59,6 +62,8 @@ def _spec(vid, role, enq):
         return A.VSpec(vid, 4, 0, plug="LEVEL_2", energy=0.0, enq=stubs.mk_time(enq))
     if role == 7:
         return A.VSpec(vid, 4, 0, plug="LEVEL_2", memb=1, energy=10.0, enq=stubs.mk_time(enq))
+    if role == 8:
+        return A.VSpec(vid, 4, 0, plug="DCFC", energy=10.0, enq=stubs.mk_time(enq))
     if role == 3:
         return A.VSpec(vid, 0, 0, energy=10.0)
     return A.VSpec(vid, 7, 0, plug="LEVEL_2", energy=10.0)
@@ -71,11 +76,11 @@ def h_fifo(r1: int, r2: int, t0: int, t1: int, t2: int, tot: int, g: int, q: int
     """
     CASE = role of v0 (0..7).  `perm` is the order in which SimulationState.vehicles yields its values (a hash-order
     stand-in: the result must respect (enqueue time, id) whatever it is).
-    pre: 0 <= r1 <= 7 and 0 <= r2 <= 7 and 0 <= perm <= 1
+    pre: 0 <= r1 <= 8 and 0 <= r2 <= 7 and 0 <= perm <= 1
     pre: 0 <= t0 <= 100000 and 0 <= t1 <= 100000 and 0 <= t2 <= 100000
     post: _
     """
-    roles = (CASE % N_ROLES, _role(r1), _role(r2))
+    roles = (CASE % N_ROLES, _role(r1, (8,)), _role(r2))
     order = None
     for k, o in enumerate(((0, 1, 2), (2, 1, 0))):  # sorted, reversed
         if perm == k:
